@@ -358,7 +358,8 @@ class Indicators(Underlying):
     def _value_log(
         self, times, path: np.array, jump_path: np.array, payoff_underlying=None
     ) -> np.array:
-        res = 1 if np.all(path[..., -1] > self.log_thresholds) else 0
+        # compare in spot units: np.log of a non-positive threshold is nan and would never be exceeded
+        res = 1 if np.all(np.exp(path[..., -1]) > self.thresholds) else 0
         return np.array([res])
 
 
